@@ -232,6 +232,7 @@ int main(int argc, char** argv) {
   h.meta("deadline_quick", "900"); h.meta("deadline_thorough", "3000");
   h.timeout_s = 2400;
   bool T = h.thorough;
-  h.add_space("bfs", 1, [T](uint64_t) { explore(T ? 5 : 3, true); });
+  int depth = T ? 5 : 3; bool faults = true; if (getenv("C20_DEPTH")) depth = atoi(getenv("C20_DEPTH")); if (getenv("C20_NOFAULT")) faults = false;
+  h.add_space("bfs", 1, [depth, faults](uint64_t) { explore(depth, faults); });
   return h.main();
 }
